@@ -1496,3 +1496,32 @@ Example ex_chain :
   /\ lookup n_score (store_of (fst (step ex_cfg ex_s (Post 100))) 0) = Some (VInt 30)
   /\ lookup 14 (store_of (fst (step ex_cfg ex_s (Post 100))) 0) = Some (VInt 1000).
 Proof. vm_compute. repeat split. Qed.
+
+(* adding a player: the new player's variables are announced (one event per int/str/float variable with
+   prev_value = value), nothing else is posted *)
+Lemma added_player_events_l c s :
+  ingame s = true ->
+  (players (fst (step c s Start)) = players s /\ snd (step c s Start) = [])
+  \/ (players (fst (step c s Start)) = players s ++ [fresh_player c (length (players s))]
+      /\ snd (step c s Start) = announce (length (players s)) (fresh_player c (length (players s)))).
+Proof.
+  intros H. cbn [step]. rewrite H.
+  destruct (negb (ending s) && (Z.of_nat (length (players s)) <? maxp c)
+            && negb (1 <? as_int (getvar n_ball (store_of s (cur s))))); cbn; auto.
+Qed.
+
+Lemma announce_names_aux i (n : value) : forall st : store,
+  map ev_name (flat_map (fun kv : name * value =>
+                           let '(k, v) := kv in
+                           if simple v
+                           then [mkEv i k v v (if is_str v then VBool false else VInt 0) n false true]
+                           else []) st)
+  = map fst (filter (fun kv => simple (snd kv)) st).
+Proof.
+  induction st as [|[k v] st IH]; [reflexivity|]. cbn.
+  destruct (simple v); cbn; [f_equal|]; exact IH.
+Qed.
+
+Lemma announce_names i st :
+  map ev_name (announce i st) = map fst (filter (fun kv => simple (snd kv)) st).
+Proof. unfold announce. apply announce_names_aux. Qed.
